@@ -60,6 +60,29 @@ class SourceModule(Object):
         return scope
 
     @property
+    def is_package(self):
+        # type: () -> bool
+        return self.filename.endswith('__init__.py')
+
+    def get_attr(self, ctx, name):
+        # type: (t.Any, str) -> Object | Name | None
+        result = self._attrs.get(name)
+        if result is None and self.is_package:
+            # a submodule is an attribute of its package from the moment it
+            # is imported by anyone: pkg/__init__.py: from .mod import K
+            try:
+                return self.project.get_module(self.name + '.' + name)  # type: ignore[return-value]
+            except ImportError:
+                return None
+        return result
+
+    def attr_list(self, ctx):
+        # type: (t.Any) -> t.Any
+        if self.is_package:
+            return set(self._attrs) | self.project.list_packages(self.name)
+        return self._attrs
+
+    @property
     def _attrs(self):
         # type: () -> dict[str, Object | Name]
         if getattr(self, '_loading', False):
